@@ -34,6 +34,13 @@
 // shrink, keep their length or grow when formatted; read-only and symlinked files; --path /
 // --exclude-path; existing -o locations): every file on disk byte for byte against the
 // formatter's own output, the second run clean.
+//
+// Part (vi), fmtsize.go: the same output modes by SIZE of the formatted text - formatted sizes at
+// every plausible buffer boundary (4 KiB … 1 MiB, -1 / 0 / +1), single lines longer than 64 KiB /
+// 1 MiB, multi-byte characters lying across byte 4096 / 32768 / 65536, several such files in one
+// run - for stdout, -o file, -o dir, -w and -d x every input form; stdout / the -o file byte for
+// byte the concatenation of the formatter's outputs in path order, the -d text applied to the
+// input reproduces the formatter's output.
 package main
 
 import (
@@ -738,6 +745,23 @@ func corpusSets() [][]ann {
 
 // ---------------------------------------------------------------------------------------
 
+// C20_PARTS (development aid): a list of part numbers such as "6" or "5,6" restricts the run to
+// those parts; the case indices stay what they are in a full run.
+var currentPart = 0
+
+func partEnabled() bool {
+	p := os.Getenv("C20_PARTS")
+	if p == "" {
+		return true
+	}
+	for _, x := range strings.Split(p, ",") {
+		if x == strconv.Itoa(currentPart) {
+			return true
+		}
+	}
+	return false
+}
+
 func main() {
 	run := hx.Start("C20")
 	defer run.Finish()
@@ -745,12 +769,13 @@ func main() {
 	tStart := time.Now()
 	idx := 0
 	do := func(f func()) {
-		if run.Only < 0 || run.Only == idx {
+		if (run.Only < 0 || run.Only == idx) && partEnabled() {
 			f()
 		}
 		idx++
 	}
 	// part (i)
+	currentPart = 1
 	for _, as := range corpusSets() {
 		as := as
 		do(func() { inProcessCase(run, idx, as, "corpus") })
@@ -764,6 +789,7 @@ func main() {
 	run.Set("part1_seconds", time.Since(tStart).Seconds())
 	// part (iii): error values through the extracted classification code
 	t3 := time.Now()
+	currentPart = 3
 	errValueCases(run, rnd.Fork(3_000_000), &idx, do)
 	appErrorCreators(run)
 	run.Set("part3_seconds", time.Since(t3).Seconds())
@@ -788,11 +814,18 @@ func main() {
 	fixed := fixedWorkspaces()
 	nWs := run.N(100, 800)
 	base := idx + len(fixed) + nWs
+	currentPart = 4
 	ph := phasePrepare(run, rnd.Fork(4_000_000), base, bufBin, scratch)
+	currentPart = 5
 	wr := writePrepare(run, rnd.Fork(5_000_000), base+ph.n, bufBin, scratch)
+	t6 := time.Now()
+	currentPart = 6
+	sz := sizePrepare(run, rnd.Fork(6_000_000), base+ph.n+wr.n, bufBin, scratch)
+	run.Set("part6_generate_seconds", time.Since(t6).Seconds())
+	currentPart = 2
 	background := make(chan struct{})
 	go func() {
-		parallel(10, append(append([]func(){}, ph.procs...), wr.procs...))
+		parallel(10, append(append(append([]func(){}, sz.procs...), ph.procs...), wr.procs...))
 		close(background)
 	}()
 	for _, w := range fixed {
@@ -815,8 +848,10 @@ func main() {
 	ph.eval()
 	// part (v): buf format -w / -o / -d at the level of file contents
 	wr.eval()
-	idx += ph.n + wr.n
-	procRuns += ph.runs + wr.runs
+	// part (vi): the same modes by SIZE of the formatted text
+	sz.eval()
+	idx += ph.n + wr.n + sz.n
+	procRuns += ph.runs + wr.runs + sz.runs
 	run.Set("part45_seconds", time.Since(t4).Seconds())
 	run.Set("process_runs", procRuns)
 	_ = sort.Strings
